@@ -1,6 +1,7 @@
 from __future__ import annotations
 
 import inspect
+from collections import Counter
 from typing import Any
 
 from torch.optim.lr_scheduler import _LRScheduler as TorchScheduler
@@ -26,6 +27,12 @@ class Scheduler(JSONSerializable):
         return self.scheduler.state_dict()
 
     def load_state_dict(self, state_dict: dict[str, Any]) -> None:
+        if "milestones" in state_dict:
+            # JSON object keys are strings: restore the integer epochs of MultiStepLR
+            state_dict = dict(state_dict)
+            state_dict["milestones"] = Counter(
+                {int(key): value for key, value in state_dict["milestones"].items()}
+            )
         self.scheduler.load_state_dict(state_dict)
 
     @classmethod
